@@ -463,9 +463,76 @@ void genCond(Prng& r, Plan& p, int)
 	p.p["timed"] = r.below(3) == 0;
 	p.p["setter_delay"] = r.below(4);
 	p.p["clock_jump_ms"] = r.below(8) == 0 ? r.range(-200000, 3600000) : 0;
+	// timed waits with fractional timeouts, started at an arbitrary phase of the wall-clock second, signalled well inside the timeout
+	if (r.below(4) == 0)
+	{
+		p.p["late"] = 1;
+		p.p["phase_ms"] = r.below(1000);
+		p.p["t_ms"] = 200 + r.below(2300);
+		p.p["sig_ms"] = r.below((uint32_t)std::max<int64_t>(1, p.p["t_ms"] - 150));
+	}
 }
+
+// A timed wait that is signalled inside its timeout must report the signal; it may report a timeout only once the
+// timeout has really elapsed (a waiter that trusts an early "timed out" gives up and misses the signal).
+void runCondLate(const Plan& p)
+{
+	int W = (int)std::max<int64_t>(1, std::min<int64_t>(4, p.get("waiters", 1)));
+	double T = std::max<int64_t>(50, std::min<int64_t>(5000, p.get("t_ms", 600))) * 0.001;
+	double sig = std::max<int64_t>(0, std::min<int64_t>((int64_t)(T * 1000) - 150, p.get("sig_ms", 0))) * 0.001;
+	sim::sleepFor((p.get("phase_ms") % 1000) * 0.001);
+	asl::Mutex mutex;
+	asl::Condition cond(mutex);
+	volatile bool ready = false;
+	volatile int woke = 0, early = 0;
+	volatile double earliest = 1e9;
+	volatile int* wp = &woke;
+	volatile int* ep = &early;
+	volatile double* el = &earliest;
+	std::vector<Task> tasks((size_t)W + 1);
+	for (int i = 0; i < W; i++)
+		tasks[(size_t)i].start([&]() {
+			mutex.lock();
+			while (!ready)
+			{
+				double t0 = sim::simNow();
+				bool timedOut = cond.wait(T);
+				double dt = sim::simNow() - t0;
+				if (timedOut && dt < T - 0.05)
+				{
+					*ep = *ep + 1;
+					if (dt < *el)
+						*el = dt;
+				}
+			}
+			mutex.unlock();
+			__sync_fetch_and_add(wp, 1);
+		});
+	tasks[(size_t)W].start([&]() {
+		asl::sleep(sig);
+		mutex.lock();
+		ready = true;
+		cond.signal();
+		mutex.unlock();
+	});
+	for (auto& t : tasks)
+		t.join();
+	sim::NoSched ns;
+	sim::setNontrivial();
+	if (woke != W)
+		sim::fail("lost_signal", "condition;late", "%d of %d waiters returned", woke, W);
+	if (early)
+		sim::fail("lost_signal", "condition;timed_wait_early_timeout", "wait(%.3f s) reported a timeout after only %.3f simulated seconds (%d times), with no clock jump; the signal was issued %.3f s after the waits began, inside the timeout", T,
+		          earliest, early, sig);
+}
+
 void runCond(const Plan& p)
 {
+	if (p.get("late") && p.get("timed") && !p.get("clock_jump_ms"))
+	{
+		runCondLate(p);
+		return;
+	}
 	int W = (int)std::max<int64_t>(1, std::min<int64_t>(4, p.get("waiters", 1)));
 	bool timed = p.get("timed") != 0;
 	bool jump = p.get("clock_jump_ms") != 0 && timed;
